@@ -199,11 +199,11 @@ static _Bool g_stdin_used;
 #define optind verif_optind
 #define optarg verif_optarg
 
-/* getopt_long per its contract: returns -1 (options exhausted), '?' (error, message already printed), a short
-   option of the optstring "+d:D:l:" (each takes an argument: optarg is a NUL-terminated string), or the val of
-   one of the long options in the caller's table -- whose optarg is a string if and only if that entry's
-   has_arg is non-zero, and NULL otherwise.  optind stays within [1, argc]. */
-static int verif_getopt_long(int argc, const struct option *longopts)
+/* getopt_long per its contract: returns -1 (options exhausted), '?' (error, message already printed), a short option letter
+   that occurs in the caller's optstring -- optarg is a NUL-terminated string if and only if the letter is followed by ':'
+   there, and NULL otherwise -- or the val of one of the long options in the caller's table, whose optarg is a string if and
+   only if that entry's has_arg is non-zero, and NULL otherwise.  optind stays within [1, argc]. */
+static int verif_getopt_long(int argc, const char *optstring, const struct option *longopts)
 {
   int r = nondet_int();
   int adv = nondet_int();
@@ -218,13 +218,20 @@ static int verif_getopt_long(int argc, const struct option *longopts)
       if (longopts[k].has_arg) { verif_optarg_obj[15] = 0; verif_optarg = verif_optarg_obj; }
       return longopts[k].val;
     }
-  __CPROVER_assume(r == '?' || r == 'D' || r == 'l' || r == 'd');
-  if (r == '?') { g_diag_inc(); return r; }   /* getopt itself prints the error message */
-  verif_optarg_obj[15] = 0;
-  verif_optarg = verif_optarg_obj;
-  return r;
+  if (nondet_bool()) { g_diag_inc(); return '?'; }   /* getopt itself prints the error message */
+  {                                     /* a short option: position i of the optstring (at most 15 characters) */
+    unsigned i = nondet_uint();
+    __CPROVER_assume(i < 15);
+#define VERIF_GO_(k) if (i >= (k)) __CPROVER_assume(optstring[k] != 0);
+    VERIF_GO_(0) VERIF_GO_(1) VERIF_GO_(2) VERIF_GO_(3) VERIF_GO_(4) VERIF_GO_(5) VERIF_GO_(6) VERIF_GO_(7)
+    VERIF_GO_(8) VERIF_GO_(9) VERIF_GO_(10) VERIF_GO_(11) VERIF_GO_(12) VERIF_GO_(13) VERIF_GO_(14)
+#undef VERIF_GO_
+    __CPROVER_assume(optstring[i] != '+' && optstring[i] != ':' && optstring[i] != '-' && optstring[i] != '?');
+    if (optstring[i + 1] == ':') { verif_optarg_obj[15] = 0; verif_optarg = verif_optarg_obj; }
+    return optstring[i];
+  }
 }
-#define getopt_long(argc, argv, s, o, li) verif_getopt_long((argc), (o))
+#define getopt_long(argc, argv, s, o, li) verif_getopt_long((argc), (s), (o))
 
 /* strcmp: the real semantics on strings of at most 15 characters (every string a harness supplies
    -- option arguments, argv words -- lives in a 16-byte NUL-terminated buffer; the program's own
@@ -248,6 +255,7 @@ static long verif_strtol(const char *s, char **end, int base)
   long v = nondet_long();
   size_t k = nondet_size_t();
   (void)base;
+  __CPROVER_assert(s != 0, "C08: strtol is not handed a null pointer (an option that takes no argument has optarg == NULL)");
   __CPROVER_assume(k <= 15);
   if (k == 0) v = 0;
   *end = (char *)s + k;
